@@ -45,6 +45,8 @@ THEOREMS = [
     "OllamaVerif.C03.F6_repaired",
     "OllamaVerif.C03.dup_and_empty_repaired",
     "OllamaVerif.C03.retry_can_succeed",
+    "OllamaVerif.C03.resume_plan_order_independent",
+    "OllamaVerif.C03.glob_order_12",
     "OllamaVerif.C03.stuck_plan_never_recovers",
     "OllamaVerif.C03.challenge_panics_iff",
     "OllamaVerif.C03.challenge_total_fixed",
@@ -55,7 +57,7 @@ THEOREMS = [
     "OllamaVerif.C03.empty_digest_panics",
     "OllamaVerif.C03.size_lie_accepted",
 ]
-FILES = ["zz_verif_c03_test.go", "zz_verif_c03net_test.go", "zz_verif_c03gen_test.go"]
+FILES = ["zz_verif_c03_test.go", "zz_verif_c03net_test.go", "zz_verif_c03gen_test.go", "zz_verif_c03big_test.go"]
 OVERLAY = {"server/" + f: "server/" + f for f in FILES}
 
 
